@@ -145,6 +145,10 @@ func (r *nodeBasedBalancer) balanceHighestNode(loadRatios *model.Ratio, candidat
 				slog.String("from-node", fromNodeID),
 				slog.Any("error", err),
 			)
+			// this shard cannot be moved: try the next one instead of retrying it forever
+			if !shardIter.Prev() {
+				break
+			}
 			continue
 		}
 		if !shardIter.Prev() {
